@@ -93,6 +93,15 @@ def cases(tier: str, rng: random.Random) -> List[Case]:
                     for shape in ("VTuple", "VList"):
                         out.append(std_case(("NTupleV", fields, rng.choice([None, Some(N(2))]), co),
                                             (shape, xs), rng.choice(["sync", "async"]), tag="a:ntuple-arity"))
+    # (a'0) custom coercers decide also about values that already have the target type (a coercer that refuses
+    # everything, one that reads ints, one that turns tuples into lists / lists into tuples)
+    for co_k in (0, 2, 3, 4, 6):
+        for v_ in (("UTupleV", INT, [("PMinItems", 1)], [], Some(("CoUser", N(co_k)))), ("ListV", INT, [("PMinItems", 1)], [], Some(("CoUser", N(co_k)))),
+                   ("NTupleV", [INT, INT], None, Some(("CoUser", N(co_k)))), ("SetV", INT, [], [], Some(("CoUser", N(co_k))))):
+            for x_ in (("VTuple", [G.I(1), G.I(2)]), ("VList", [G.I(1), G.I(2)]), ("VTuple", []), ("VList", []), ("VSet", [G.I(1)]), G.I(3), G.TRUE,
+                       ("VTuple", [G.I(1), G.S("x")])):
+                for m in ("sync", "async"):
+                    out.append(std_case(v_, x_, m, tag="a:custom-coercer"))
     # (a'+) a whole-tuple check behind payload-changing slots: it sees, and the result holds, the slots' payloads
     for fields, xs in (([STRIP, DEC], [G.S(" a "), G.S("1.5")]), ([DEC, STRIP], [G.I(2), G.S("b ")]),
                        ([("ListV", STRIP, [], [], None), INT_INC], [("VList", [G.S(" q ")]), G.I(1)]),
@@ -162,6 +171,11 @@ def cases(tier: str, rng: random.Random) -> List[Case]:
     # (d) collections that contain themselves (through Lazy): the same validator object is active
     # at several depths of one call, and every level reports its own positions
     out += recursive_cases(tier, rng)
+    # sets over wrapped / user-written / transforming item validators
+    STRP_ = ("Scalar", ("KStr",), None, [("Strip",)], [("PNotBlank",), ("PMaxLength", 2)], [])
+    for v_, x_ in G.set_children_cases():
+        for m_ in ("sync", "async"):
+            out.append(std_case(v_, x_, m_, lazy=[STRP_], tag="a:set-children"))
     return out
 
 
